@@ -33,8 +33,8 @@ RULE = ("cases = solver (vi, pi, rvi, periodic, semi-async fixed order) x proble
         "points whose resumed final state was compared; distinct = distinct (solver, problem, k).")
 ASSUMPTIONS = ["bitwise reproducibility across fresh processes on this platform (same device count, same construction order)",
                "the first leg waits for pending writes before exiting (graceful interruption; the ungraceful one is C11)",
-               "deciding cases enable 64-bit mode before building the problem; the README-order disagreement is the listed "
-               "finding problem-built-before-x64, recognised by its dtype signature"]
+               "deciding cases enable 64-bit mode before building the problem; the README-order probes (problem built "
+               "first in every process) must agree too since the repair of the float32 initial values"]
 MIN_DECIDING = {"quick": 12, "thorough": 40}
 SHARD_TIMEOUT = {"quick": 3000, "thorough": 14000}
 TARGET_SHARDS = {"quick": 64, "thorough": 160}
@@ -220,8 +220,8 @@ def _readme(case, sv, base):
         return dict(status="ok", n_obs=1, distinct=1, cls=cls, solver=sv)
     detail = (f"{sv}: problem built before the solver (README order) in every process: resumed run differs from the uninterrupted "
               f"one in {d}; uninterrupted dtype {ref['final']['dtype']}, restored dtype {res['restored_dtype']}")
-    if ref["x64_at_problem"] is False and ref["final"]["dtype"] == "float32" and res["restored_dtype"] == "float64":
-        return dict(status="known", key="problem-built-before-x64", detail=detail, cls=cls, solver=sv)
+    # (until the repair recorded in known_findings.txt this was a known finding: the uninterrupted run iterated in
+    # float32 from float32 initial values while the restored run held float64 values; a return is a violation)
     return dict(status="violation", kind="readme-order", detail=detail)
 
 
